@@ -681,6 +681,8 @@ class VM:
         m = re.match(r'(\w[\w:<>, ]*)::(\w+)$', c)
         if m:
             return Enum(m.group(1).split('::')[-1], m.group(2))
+        if c in getattr(self.prog, 'consts', {}):
+            return self.eval_promoted(c)          # a module-level constant with a body of its own
         pm = re.search(r'::(promoted\[\d+\]|[A-Z][A-Z0-9_]*)$', c)
         if pm and fr is not None:
             name = re.sub(r'@@\d+$', '', fr.func.name) + '::' + pm.group(1)
